@@ -61,6 +61,10 @@ def evidence_case(rep, cs, seed, i):
             obs[v] = rng.randint(0 if monotone else -2, 2)       # an integer-typed observation of a continuous variable
         else:
             obs[v] = gen.dy(rng, 0 if monotone else -6, 6, 4)
+    if len(obs) >= 2 and rng.random() < 0.6:
+        ks = list(obs)      # the observation is a mapping: its insertion order is arbitrary (here: shuffled, not ascending)
+        rng.shuffle(ks)
+        obs = {k_: obs[k_] for k_ in ks}
     sem = pick_semiring(rng, monotone)
     fold, opt = rng.choice(evalc.FLAGS)
     if homog and rng.random() < 0.7:
